@@ -674,7 +674,8 @@ func redactString(s string, nonEncryptedValue string) string {
 	if shouldEncrypt && encryptionKey != nil {
 		encrypted, err := Encrypt([]byte(s), encryptionKey)
 		if err != nil {
-			return s // Fallback to original if encryption fails
+			// fail closed: never emit the clear text when the value cannot be encrypted
+			return nonEncryptedValue
 		}
 		return base64.StdEncoding.EncodeToString(encrypted)
 	}
